@@ -4,6 +4,7 @@
 package packfile
 
 import (
+	"bytes"
 	"encoding/binary"
 	"encoding/hex"
 	"errors"
@@ -176,19 +177,20 @@ func (r *PackfileReader) ReadObject() (objType int, b []byte, err error) {
 	if err != nil {
 		return
 	}
-	var read uint64 = 0
-	b = make([]byte, int(u))
-	for read < u {
-		n, err := r.r.Read(b[read:])
-		if err != nil && err != io.EOF {
-			return 0, nil, err
-		}
-		read += uint64(n)
-		if errors.Is(err, io.EOF) && read < u {
+	if u > math.MaxInt64 {
+		return 0, nil, fmt.Errorf("reading object: invalid object length %d", u)
+	}
+	// The announced length is not trusted: the buffer grows as bytes actually
+	// arrive instead of being allocated up front.
+	buf := bytes.NewBuffer(nil)
+	n, err := io.CopyN(buf, r.r, int64(u))
+	if err != nil {
+		if errors.Is(err, io.EOF) && uint64(n) < u {
 			return 0, nil, io.ErrUnexpectedEOF
 		}
+		return 0, nil, err
 	}
-	return
+	return objType, buf.Bytes(), nil
 }
 
 func (r *PackfileReader) Close() error {
